@@ -130,9 +130,22 @@ def real_val(f):
     if isinstance(f, float):
         if f != f or f in (float('inf'), float('-inf')):
             raise OutsideSubset("non-finite float")
-        n, d = f.as_integer_ratio()
-        return z3.RealVal(fractions.Fraction(n, d))
+        # ASSUMPTION "floats are reals": a concrete double stands for the decimal it prints as
+        # (0.333 is 333/1000, not the nearest binary fraction)
+        return z3.RealVal(fractions.Fraction(repr(f)))
     return z3.RealVal(f)
+
+
+def exact_div(a, b):
+    """a / b on concrete numbers under the floats-are-reals reading: the python float when it is the
+    exact quotient, otherwise the exact rational as a symbolic constant"""
+    r = a / b
+    fa = fractions.Fraction(repr(a)) if isinstance(a, float) else fractions.Fraction(a)
+    fb = fractions.Fraction(repr(b)) if isinstance(b, float) else fractions.Fraction(b)
+    q = fa / fb
+    if fractions.Fraction(repr(r)) == q:
+        return r
+    return Sym(z3.RealVal(q))
 
 
 def to_z3(v, like=None):
@@ -220,6 +233,9 @@ def binop(op, a, b):
         if _has_sym(a) or _has_sym(b):
             raise OutsideSubset("operator %s on a container with symbolic members" % op)
         try:
+            if op == '/' and isinstance(a, (int, float)) and isinstance(b, (int, float)) \
+                    and not isinstance(a, bool) and not isinstance(b, bool) and b != 0:
+                return exact_div(a, b)
             return _NATIVE_BIN[op](a, b)
         except KeyError:
             raise OutsideSubset("operator %s" % op)
